@@ -316,6 +316,11 @@ Attribution(r) ==
   \cup (IF OutOk(r) /\ "raw_host" \in DOMAIN r.out.ok /\ Ok(r.out.ok.raw_host) /\ V(r.out.ok.raw_host) # None
            /\ Has(V(r.out.ok.raw_host)[1], COLON) /\ CanonIPv6Host(V(r.out.ok.raw_host)[1]) = <<>>
         THEN {"Dev_BracketedNonIPv6LosesBrackets"} ELSE {})
+  \* ... or the RECEIVER is such a URL (its eagerly cached host still reads; what a modifier derives from the stored
+  \* authority no longer parses)
+  \cup (IF Has_(r, "self") /\ "raw_host" \in DOMAIN r.self /\ Ok(r.self.raw_host) /\ V(r.self.raw_host) # None
+           /\ Has(V(r.self.raw_host)[1], COLON) /\ CanonIPv6Host(V(r.self.raw_host)[1]) = <<>>
+        THEN {"Dev_BracketedNonIPv6LosesBrackets"} ELSE {})
   \* Dev_MakeChildClimbEatsRoot: '/' and joinpath with a '..' that climbs above the root (trigger only)
   \cup (IF r.act \in {"truediv", "joinpath"} /\ Has_(r, "self") /\ "parts" \in DOMAIN r.self /\ Ok(r.self.parts)
            /\ ClimbsAboveRoot(OldSegs(r.self) \o NewSegs(IF r.act = "truediv" THEN <<r.args.v>> ELSE r.args.vs))
